@@ -1,6 +1,7 @@
 import Tumfl.Theory.LexTotal
 import Tumfl.Theory.Hints
 import Tumfl.Theory.ParserWF
+import Tumfl.Theory.ParserFuelExamples
 /-!
 # C09  Parsing any text returns an AST or raises LexerError/ParserError
 
@@ -59,5 +60,26 @@ theorem C09_parse_total (src : List Char) (e : PyErr) (h : parseText src = .erro
   · exact Or.inr (Or.inl hp)
   · exact absurd (hs ▸ h) (C09_no_assertion src site)
   · exact Or.inr (Or.inr hf)
+
+/-- **termination of the parser**: the model's recursion fuel (`5 * length + 64`; one unit per nested call of the Python original) is never
+exhausted - every loop iteration and every descent consumes a token before the same function is entered again (potential argument over all 21
+functions and the ladder, `Theory/ParserFuel.lean`).  `C09_old_fuel` records that the constant the model used at first (`4 * length + 64`) was too
+small: nested table constructors cost five calls per character. -/
+theorem C09_parser_terminates (src : List Char) : parseText src ≠ .error .fuel := parseText_no_fuel src
+
+theorem C09_old_fuel : parseTextWith (4 * fuelCounterexample.length + 64) fuelCounterexample = .error .fuel := old_fuel_counterexample
+
+/-- the outcome does not depend on the fuel once it suffices (so the constant is not part of the meaning of the model) -/
+theorem C09_fuel_irrelevant (src : List Char) (fuel : Nat) (hf : 5 * src.length + 15 ≤ fuel) : parseText src = parseTextWith fuel src :=
+  parseText_eq_any_fuel src fuel hf
+
+/-- whatever the text, `parse` terminates and returns a tree, or raises LexerError or ParserError (or hits the modelling border of lone
+surrogates) -/
+theorem C09_parse_total_final (src : List Char) (e : PyErr) (h : parseText src = .error e) :
+    Benign' e ∨ (∃ m t hs, e = .parser m t hs) := by
+  rcases C09_parse_total src e h with hb | hp | hf
+  · exact Or.inl hb
+  · exact Or.inr hp
+  · exact absurd (hf ▸ h) (C09_parser_terminates src)
 
 end Tumfl.Props
